@@ -4,6 +4,7 @@ import (
 	"bytes"
 	"fmt"
 	"strconv"
+	"strings"
 
 	"github.com/cuteLittleDevil/go-jt808/protocol/jt808"
 	"verif/harness/internal/frames"
@@ -41,8 +42,32 @@ func execDec(c fw.Case) string {
 	if reused != fresh {
 		return "history fresh=(" + fresh + ") reused=(" + reused + ")"
 	}
+	// one JTMessage and ONE read buffer for consecutive frames (as a caller with its own read loop would do): the earlier
+	// frame has the same layout, another phone number and no escape sequence, so everything the decoder kept from it
+	// points into the buffer the next frame overwrites
+	for _, hist := range [][]byte{decHistory13, decHistory19} {
+		buf := make([]byte, 0, 8192)
+		sh := jt808.NewJTMessage()
+		buf = append(buf[:0], hist...)
+		_ = sh.Decode(buf[:len(hist):len(hist)])
+		f2 := fw.UnHex(c.Args[0])
+		if len(f2) > cap(buf) {
+			continue
+		}
+		buf = append(buf[:0], f2...)
+		shared := "err"
+		if err := sh.Decode(buf[:len(f2):len(f2)]); err == nil {
+			shared = showMsg(sh)
+		}
+		if shared != fresh {
+			return "history fresh=(" + fresh + ") shared-buffer=(" + shared + ")"
+		}
+	}
 	return fresh
 }
+
+var decHistory13 = frames.Build(frames.H{ID: 0x0002, Phone: []byte{0x09, 0x87, 0x65, 0x43, 0x21, 0x09}, Serial: 3}, nil)
+var decHistory19 = frames.Build(frames.H{ID: 0x0002, V2019: true, Phone: []byte{0, 0, 0, 0, 0x09, 0x87, 0x65, 0x43, 0x21, 0x09}, Serial: 3}, nil)
 
 func implEncode(src []byte, rid, ser uint16, body []byte) ([]byte, *jt808.JTMessage, bool) {
 	m := jt808.NewJTMessage()
@@ -75,6 +100,14 @@ func execEnc(c fw.Case) string {
 
 // oracleC01: decode(encode(...)) returns the ID, phone, version, serial and body; no interior 0x7e.
 func oracleC01(c fw.Case) *fw.OracleFailure {
+	if c.Op == "dec" {
+		// "decodes back to exactly that …": what Decode returns is a function of the frame, not of what the JTMessage or the
+		// caller's buffer held before
+		if got := fw.SafeExec(func() string { return execDec(c) }); strings.HasPrefix(got, "history ") {
+			return &fw.OracleFailure{Sig: "JTMessage.Decode/depends-on-history", Msg: trunc(got, 600)}
+		}
+		return nil
+	}
 	if c.Op != "enc" {
 		return nil
 	}
